@@ -28,6 +28,13 @@ rule("C07.o", "a local array alias (a = b without copy) is not written through o
      props=["C07", "C05"])
 rule("C07.p", "every de-duplication of a mapping by index keeps the same row (keep='first': the variable's first-appearance row, "
               "i.e. its earliest time step) - siblings agree", floor=4, props=["C07", "C17", "C04"])
+rule("C03.g", "optimize() reads the boolean flag of a variable from the same mapping row as every other consumer (the de-duplication "
+              "convention keep='first' of C07.p, seen from C03)", floor=1)
+rule("C07.t", "a parameter that defaults to None and takes numbers (callers pass numeric literals, or it is annotated float / int) is "
+              "tested with `is None`, never by truthiness: 0 is a value, not 'not given'", floor=5, props=["C07", "C02"])
+rule("C04.g", "an option string is normalised the same way everywhere it is compared (target.lower() == ... at every site): the branch "
+              "that solves a variant and the branch that reports its value must agree on when the variant is active", floor=1,
+     props=["C04", "C03"])
 rule("C11.h", "the JSON writer decides 'naive' by `tzinfo is None` (a None test), never by the truthiness of an offset "
               "(timedelta(0) is falsy: UTC would be saved as naive)", floor=1)
 rule("C09.f", "a numpy array created from one name is not assigned other names by item (fixed string width truncates them)", floor=1)
@@ -45,7 +52,7 @@ def _prop_rule(fn):
     return "C07.n"
 
 
-@analysis("siblings", ["C07.n", "C02.f", "C19.f", "C07.o", "C09.f", "C07.p", "C11.h"])
+@analysis("siblings", ["C07.n", "C02.f", "C19.f", "C07.o", "C09.f", "C07.p", "C11.h", "C03.g", "C07.t", "C04.g"])
 def run(ctx):
     p = ctx.p
     # ================================================================= C07.n decided branches
@@ -224,10 +231,123 @@ def run(ctx):
         tally[k] = tally.get(k, 0) + 1
     major = max(tally, key=lambda k: tally[k])
     for fn, n, k in dd:
-        ctx.ob("C07.p", fn, au.short(n, 80), k == major,
+        ctx.ob("C03.g" if fn.qualname == "OptimProblem.optimize" else "C07.p", fn, au.short(n, 80), k == major,
                "this de-duplication keeps %r while the other %d keep %r: for a variable with several rows (coarse frequency, periodic "
                "asset, transport) different code paths then disagree about which row - which time step - stands for the variable "
                "(e.g. present / future classification in make_slp)" % (k, tally[major], major), node=n)
+
+    # ================================================================= C07.t optional numbers are not tested by truthiness
+    def truth_operands(test):
+        t = test
+        if isinstance(t, ast.BoolOp):
+            return [x for v in t.values for x in truth_operands(v)]
+        if isinstance(t, ast.UnaryOp) and isinstance(t.op, ast.Not):
+            return truth_operands(t.operand)
+        if isinstance(t, (ast.Name, ast.Attribute)):
+            return [t]
+        return []
+
+    def numeric_annotation(arg):
+        a = arg.annotation
+        return a is not None and any(isinstance(x, ast.Name) and x.id in ("float", "int") for x in ast.walk(a))
+
+    # numeric literals passed by callers, by callee name and parameter (closed world)
+    passed = {}
+    for fn in p.all_functions():
+        for c in p.calls_in(fn):
+            nm = au.method_name(c)
+            for t in p.resolve_call(c, fn):
+                tps = t.params
+                off = 1 if (t.cls is not None and t.parent is None and tps and tps[0].name in ("self", "cls")) else 0
+                for i, a in enumerate(c.args):
+                    if isinstance(a, ast.Starred):
+                        break
+                    if i + off < len(tps) and au.const_num(a) is not None and not isinstance(getattr(a, "value", None), bool):
+                        passed.setdefault((t.qualname, tps[i + off].name), []).append(c)
+                for k in c.keywords:
+                    if k.arg and au.const_num(k.value) is not None and not isinstance(getattr(k.value, "value", None), bool):
+                        passed.setdefault((t.qualname, k.arg), []).append(c)
+    n_t = 0
+    for fn in sorted(p.all_functions(), key=lambda f: f.qualname):
+        if fn.parent is not None:
+            continue
+        args = {a.arg: a for a in fn.node.args.posonlyargs + fn.node.args.args + fn.node.args.kwonlyargs}
+        cands = {}
+        for q in fn.params:
+            if q.has_default and au.is_none(q.default) and q.name in args:
+                why = None
+                if numeric_annotation(args[q.name]):
+                    why = "annotated %s" % au.U(args[q.name].annotation)
+                elif (fn.qualname, q.name) in passed:
+                    c0 = passed[(fn.qualname, q.name)][0]
+                    why = "callers pass numbers (%s)" % p.where(c0)
+                if why:
+                    cands[q.name] = why
+        if not cands:
+            continue
+        ff = None
+        uses = {}
+        # constructor-kept copies: self.x = x makes `self.x` the same optional number in every method of the class
+        for n in au.walk_local(fn.node, include_self=False):
+            test = n.test if isinstance(n, (ast.If, ast.While, ast.IfExp, ast.Assert)) else None
+            if test is None:
+                continue
+            for x in truth_operands(test):
+                if isinstance(x, ast.Name) and x.id in cands:
+                    ff = ff or ctx.flow(fn)
+                    st = p.enclosing_stmt(n) if not isinstance(n, ast.stmt) else n
+                    if all(d.kind == "param" for d in ff.defs(x.id, st)):
+                        uses.setdefault(x.id, []).append(n)
+        for name, why in sorted(cands.items()):
+            n_t += 1
+            bad = uses.get(name, [])
+            ctx.ob("C07.t", fn, "optional number %s" % name, not bad,
+                   "%s defaults to None and takes numbers (%s) but is tested by truthiness (`%s`): the value 0 is treated as 'not "
+                   "given' - e.g. a default of 0 for steps outside all intervals is never filled in and the vector keeps NaN there"
+                   % (name, why, au.short(bad[0].test, 50) if bad else ""), node=(bad[0] if bad else fn.node), ok_detail=why)
+    ctx.require(n_t >= 8, "fewer than 8 optional numeric parameters found")
+
+    # ================================================================= C04.g one normalisation per option string
+    n_g = 0
+    for fn in sorted(p.all_functions(), key=lambda f: f.qualname):
+        if fn.parent is not None:
+            continue
+        if fn.module.name != "optimization":
+            continue            # the solver entry points: here a mismatch changes what is solved / reported
+        pnames = {q.name for q in fn.params}
+        sites = {}      # param -> [(normaliser | '', Compare)]
+        for n in au.walk_local(fn.node, include_self=False):
+            if not (isinstance(n, ast.Compare) and len(n.ops) == 1 and isinstance(n.ops[0], (ast.Eq, ast.NotEq, ast.In, ast.NotIn))):
+                continue
+            for a, b in ((n.left, n.comparators[0]), (n.comparators[0], n.left)):
+                lit = au.const_str(b) is not None or (isinstance(b, (ast.Tuple, ast.List, ast.Set)) and b.elts and all(au.const_str(e) is not None for e in b.elts))
+                if not lit:
+                    continue
+                norm = ""
+                x = a
+                if isinstance(x, ast.Call) and isinstance(x.func, ast.Attribute) and x.func.attr in ("lower", "upper", "casefold", "strip") and not x.args:
+                    norm, x = x.func.attr, x.func.value
+                if isinstance(x, ast.Name) and x.id in pnames:
+                    sites.setdefault(x.id, []).append((norm, n))
+        for name, ss in sorted(sites.items()):
+            norms = {nm for nm, _ in ss}
+            if len(ss) < 2 or norms == {""}:
+                continue
+            n_g += 1
+            tally = {}
+            for nm, _ in ss:
+                tally[nm] = tally.get(nm, 0) + 1
+            major = max(tally, key=lambda k: tally[k])
+            dev = [c for nm, c in ss if nm != major]
+            ctx.ob("C04.g", fn, "option string %s" % name, not dev,
+                   "%s is compared as %s at %d site(s) but as %s here (`%s`): for a spelling that only the normalised comparison accepts "
+                   "(target='Robust') one branch treats the option as active and the other does not - the robust problem is solved but "
+                   "the reported value is not recomputed from the cost vector the DCF table uses" % (
+                       name, ("%s.%s()" % (name, major)) if major else name, tally[major],
+                       ("%s.%s()" % (name, [nm for nm, c in ss if c is dev[0]][0]) if [nm for nm, c in ss if c is dev[0]][0] else "the raw string") if dev else "",
+                       au.short(dev[0], 50) if dev else ""), node=(dev[0] if dev else ss[0][1]),
+                   ok_detail="%d comparisons, all through .%s()" % (len(ss), major))
+    ctx.require(n_g >= 1, "no option string with a normalised comparison found (optimize target)")
 
     # ================================================================= C11.h naive test of the writer
     ser = p.modules.get("serialization")
